@@ -31,7 +31,7 @@ static void prop(Tape &t, Ctx &c) {
         rc = matrixSslLoadKeysMem(keys, cert.n ? cert.p : NULL, (int32) cert.n, key.n ? key.p : NULL, (int32) key.n,
                                   ca.n ? ca.p : NULL, (int32) ca.n, (sel & 7) ? &opts : NULL);
         matrixSslDeleteKeys(keys);
-        leak.check(fmt("rc=%d", rc));
+        C09_LEAK_CHECK(leak, "rc=%d", rc);
     }
     bool plausible = (cert.n > 16 && (outer_tlv_ok(cert.p, cert.n) || memmem(cert.p, cert.n, "-----BEGIN", 10))) ||
                      (ca.n > 16 && (outer_tlv_ok(ca.p, ca.n) || memmem(ca.p, ca.n, "-----BEGIN", 10)));
